@@ -28,17 +28,36 @@ def calls_named(body, trait, names):
     return [(bi, t) for bi, t in body.calls() if callee_is(t, trait=trait, name=names)]
 
 
+def _with_delegates(ctx, cb, depth=2):
+    """The body and (closures of / local callees of) it: a helper that only forwards to another one still plays the role."""
+    out, seen, work = [], set(), [(cb, 0)]
+    while work:
+        b, d = work.pop()
+        if b.key in seen:
+            continue
+        seen.add(b.key)
+        out.append(b)
+        for cl in ctx.facts.closures_of(b.path):
+            work.append((cl, d))
+        if d < depth:
+            for _bi, _t, x in ctx.roles.local_callees(b):
+                work.append((x, d + 1))
+    return out
+
+
 def is_l21_norm(ctx, cb):
     """Role: matrix -> scalar helper that takes square roots (formula decided by the kernel engine)."""
     if cb.arg_count != 1:
         return False
-    return bool(calls_named(cb, "MomTropFloat", ("sqrt",)))
+    return any(calls_named(b, "MomTropFloat", ("sqrt",)) for b in _with_delegates(ctx, cb))
 
 
 def is_identity_ctor(ctx, cb):
-    has_one = bool(calls_named(cb, "MomTropFloat", ("one",)))
-    writes = bool(calls_named(cb, "IndexMut", ("index_mut",)))
-    return has_one and writes
+    bs = _with_delegates(ctx, cb)
+    has_one = any(calls_named(b, "MomTropFloat", ("one",)) for b in bs)
+    writes = any(calls_named(b, "IndexMut", ("index_mut",)) for b in bs)
+    rty = cb.local_ty(0)
+    return has_one and writes and "SquareMatrix" in rty
 
 
 def result_edges(term):
